@@ -139,15 +139,15 @@ theorem cnr_body (hH : WalkLike c cls id mode H) (F : Nat) (it : Item) (acc : In
       pystep [wh_call, aCall, gL, bindT]
       simp [CnrPost, excName, xTypeError, xValueError]
 
-def encItem (i : Item) : V AO := .tuple [.str (Item.key i), defV i]
+def encDictItem (i : Item) : V AO := .tuple [.str (Item.key i), defV i]
 
 theorem cnr_loop (hH : WalkLike c cls id mode H) (F : Nat) (items : List Item) : ∀ (acc : Int) (vars : List (Name × V AO)) (st : ASt),
     getVar vars 0x6c656e67726f7570 = some (.int acc) →
     (match sumSizes items acc with
-     | .ok s => ∃ vars', forLoop (forBody H F 0x5f5f6974656d5f5f cnrBody) (items.map encItem) ⟨vars, st⟩
+     | .ok s => ∃ vars', forLoop (forBody H F 0x5f5f6974656d5f5f cnrBody) (items.map encDictItem) ⟨vars, st⟩
           = (.ok .next, ⟨vars', st⟩) ∧ getVar vars' 0x6c656e67726f7570 = some (.int s)
           ∧ ∀ x, x ≠ 0x6c656e67726f7570 → x ≠ 0x5f → x ≠ 0x76616c → x ≠ 0x5f5f6974656d5f5f → getVar vars' x = getVar vars x
-     | .error e => (forLoop (forBody H F 0x5f5f6974656d5f5f cnrBody) (items.map encItem) ⟨vars, st⟩).1
+     | .error e => (forLoop (forBody H F 0x5f5f6974656d5f5f cnrBody) (items.map encDictItem) ⟨vars, st⟩).1
           = .error (.exc (excName e) 0)) := by
   whs
   induction items with
@@ -159,7 +159,7 @@ theorem cnr_loop (hH : WalkLike c cls id mode H) (F : Nat) (items : List Item) :
     intro acc vars st gL
     have hb := cnr_body c cls id mode H hH F it acc vars st gL
     rw [List.map_cons, forLoop, sumSizes]
-    simp only [encItem] at hb ⊢
+    simp only [encDictItem] at hb ⊢
     generalize forBody H F 0x5f5f6974656d5f5f cnrBody (.tuple [.str (Item.key it), defV it]) ⟨vars, st⟩ = r0 at hb ⊢
     obtain ⟨r, ⟨vars1, st1⟩⟩ := r0
     cases hm : memberSize it with
@@ -200,7 +200,7 @@ theorem calc_num_repeats_eq (hH : WalkLike c cls id mode H) (F : Nat) (items : L
      (0x6f6666736574656e64, .int 0), (0x6c656e7061796c6f6164, .int ((payload.length : Int) - off - 0)), (0x6c656e67726f7570, .int 0)] st (by pysimp)
   unfold calcNumRepeats
   simp only [cnrBody, cnrLoop, fn_UBXMessage__calc_num_repeats] at hl
-  have henc : (fun (i : Item) => (V.tuple [V.str (Item.key i), defV i] : V AO)) = encItem := rfl
+  have henc : (fun (i : Item) => (V.tuple [V.str (Item.key i), defV i] : V AO)) = encDictItem := rfl
   rw [henc]
   cases hs : sumSizes items 0 with
   | error e =>
